@@ -611,7 +611,8 @@ func domRfl(r *gen.Rng, n int, thorough bool, o *Out) {
 					return ""
 				}
 				nu, err := viaJSON(nv.Interface())
-				if err != nil {
+				if err != nil || nu == nil {
+					// a null carries no Go type: what Set(name, null) stores is judged in dom_rset.go
 					return ""
 				}
 				if f.Type == reflect.TypeOf(float64(0)) {
@@ -714,6 +715,10 @@ func domRfl(r *gen.Rng, n int, thorough bool, o *Out) {
 		if ptr.Type().Elem().Kind() == reflect.Struct && ptr.Type().Elem().NumField() >= 3 {
 			o.Nontrivial(sig)
 		}
+	}
+	// Set / Delete on reflected structs and maps at any depth (dom_rset.go)
+	for i := 0; i < 2*n; i++ {
+		rsetCase(o, g, r.Fork(uint64(9_000_000+i)))
 	}
 	// the generic map interface on every map representation: Set then Delete, against the model
 	for i := 0; i < n; i++ {
